@@ -1002,6 +1002,9 @@ V("c03-issuer-in-only-valid-cert-slot", ["C03"], "sigver.py",
 V("c06-request-returned-whatever-verify-says", ["C06"], "entity.py",
   "        if _request:\n            _request = _request.verify()\n            _log_debug(\"Verified request\")\n",
   "        if _request and _request.verify():\n            _log_debug(\"Verified request\")\n", rule="R7")
+V("c17-early-return-skips-advice-encryption", "C17", "entity.py",
+  "        if not sign and to_sign and not encrypt_assertion and \\\n                not encrypted_advice_attributes:\n",
+  "        if not sign and to_sign and not encrypt_assertion:\n", rule="R9")
 # ------------------------------------------------------------------ engine
 # behaviour-preserving edits of the kinds DESIGN 7.7 normalises; all must be
 # silent (multi-file edits)
